@@ -100,6 +100,7 @@ class TLCResult:
         self.rejected_at = None  # REJECTED_AT_LINE n
         self.rejected_event = None
         self.broken = {}         # line -> clause name printed by the trace spec
+        self.violated = []       # names of invariants TLC reported as violated
         self.error_text = ""
         self.wall = 0.0
         self.scn = 0
@@ -191,6 +192,11 @@ def run_tlc(module, cfg, workers=None, scn_out=None, env=None, simulate=None, de
                     res.depth = int(m.group(1))
                 if "No error has been found" in line:
                     res.ok = True
+                m = re.search(r"Invariant (\w+) is violated", line)
+                if m:
+                    res.violated.append(m.group(1))
+                if "Temporal properties were violated" in line:
+                    res.violated.append("<temporal>")
                 m = re.match(r'<<"BROKEN", (\d+), "([^"]*)">>', line)
                 if m:
                     res.broken[int(m.group(1))] = m.group(2)
